@@ -121,6 +121,15 @@ func TestVerifC46(t *testing.T) {
 				r.Abort = err.Error()
 				return
 			}
+			if tp.Choose(3) == 0 {
+				// an Open that is interrupted (FUSE interrupt): it fails, later opens must be unaffected
+				cctx, cancel := context.WithCancel(context.Background())
+				cancel()
+				if _, err := f.Open(cctx, nil, nil); err == nil && len(content) > 0 {
+					r.Count("interrupted_open_succeeded", 1)
+				}
+				s.Count("fault:open-interrupted")
+			}
 			for i := range plans {
 				i := i
 				s.Go(fmt.Sprintf("reader%d", i), nil, func() {
